@@ -2,6 +2,7 @@ package yqlib
 
 import (
 	"container/list"
+	"fmt"
 )
 
 /*
@@ -35,6 +36,10 @@ func collectObjectOperator(d *dataTreeNavigator, originalContext Context, _ *Exp
 	for el := context.MatchingNodes.Front(); el != nil; el = el.Next() {
 		candidateNode := el.Value.(*CandidateNode)
 
+		if len(candidateNode.Content) < len(first.Content) {
+			// the braces did not hold key: value entries ({ ... }): there is nothing to line up
+			return Context{}, fmt.Errorf("cannot build a map from %v, expected key: value entries", candidateNode.Tag)
+		}
 		for i := 0; i < len(first.Content); i++ {
 			log.Debugf("rotate[%v] = %v", i, NodeToString(candidateNode.Content[i]))
 			log.Debugf("children:\n%v", NodeContentToString(candidateNode.Content[i], 0))
